@@ -4,7 +4,7 @@ from .base_array import base_array
 from .composite import codec_kind, distance_to_next_multiply, field_alignment, struct_packed
 from .descriptor import DescriptorField
 from .exception import ProphyError
-from .scalar import enum, u32
+from .scalar import enum, plain_number, u32
 from .six import long
 
 
@@ -158,7 +158,8 @@ class enum_generator(_generator_base):
                 if value is None:
                     raise ProphyError("unknown enumerator name in {}".format(cls.__name__))
                 return cls(value)
-            elif isinstance(value, (int, long)):
+            elif plain_number(value) is not None:
+                value = plain_number(value)
                 if value not in int_to_name:
                     raise ProphyError("unknown enumerator {} value".format(cls.__name__))
                 return cls(value)
@@ -473,24 +474,25 @@ class union_generator(_composite_generator_base):
             return self._discriminated.discriminator
 
         def setter(self, discriminator_name_or_value):
+            number = plain_number(discriminator_name_or_value)
             for field in self._descriptor:
-                if isinstance(discriminator_name_or_value, (int, long)):
-                    chosen = discriminator_name_or_value == field.discriminator
+                if number is not None:
+                    chosen = number == field.discriminator
                 else:
                     """ a float, Fraction or Decimal that compares equal to a discriminator is not one """
-                    chosen = isinstance(discriminator_name_or_value, type(field.name)) and discriminator_name_or_value == field.name
+                    chosen = type(discriminator_name_or_value) is type(field.name) and discriminator_name_or_value == field.name
                 if chosen:
                     if field is not self._discriminated:
                         self._discriminated = field
                         self._fields = {}
                     return
-            shown = discriminator_name_or_value
-            if isinstance(shown, (int, long)) and abs(shown) >= (1 << 128):
-                shown = "a number of %d bits" % shown.bit_length()
+            shown = discriminator_name_or_value if number is None else number
+            if number is not None and abs(number) >= (1 << 128):
+                shown = "a number of %d bits" % number.bit_length()
             try:
                 shown = repr(shown)
-            except ValueError:
-                """ repr of a Fraction of thousands of digits exceeds the interpreter's digit limit """
+            except Exception:
+                """ repr of a Fraction of thousands of digits exceeds the interpreter's digit limit, a deeply nested list its stack """
                 shown = "a %s" % type(shown).__name__
             raise ProphyError("unknown discriminator: {}".format(shown))
 
